@@ -54,7 +54,7 @@ def gen_exhaustive(tier, rng):
         for b in pool:
             for c in pool:
                 toks = (a, b, c)
-                if admissible(toks) and (tier != 'quick' or rng.random() < 0.1):
+                if admissible(toks) and (tier != 'quick' or rng.random() < 0.08):
                     yield ('exhaustive', 1, [straight(toks), [], ''])
     if tier != 'quick':
         for toks in itertools.product(first, pool, pool, pool):
@@ -126,6 +126,31 @@ def gen_substring(tier, rng):
         for start in range(-(n + 4), n + 4):
             for ln in range(-1, n + 3):
                 yield ('exhaustive_substring', 1, [straight([Sx(t), I(start), I(ln), Id('substring$')]), [], ''])
+
+
+# the string built-ins on the operand shapes of C12's streams (its pools are imported read-only) plus white space inside
+# special characters (double blanks, tabs, a blank before the closing brace)
+SPECIAL_WS = ['{\\relax  IBM  PC}', '{\\relax\tIBM PC}', '{\\relax IBM PC }', 'x {\\TeX  and  More} Y', "{\\'E  }cole", '{\\LaTeX \t e}  Z',
+              'A {\\ss  } B', '{\\AA\t}', '{\\a B}  {\\c  D} E', 'The {\\TeX  book \\noop }', '{\\  x}', '{\\x  }']
+def bst_literal_ok(t):
+    return all(c not in '"\n\r\x0b\x0c\x1c\x1d\x1e\x85\u2028\u2029' for c in t)
+def gen_string_builtins(tier, rng):
+    from props import c12
+    pool = [t for t in list(c12.PINNED) + SPECIAL_WS if bst_literal_ok(t)]
+    extra = 8 if tier == 'quick' else 200
+    while extra > 0:
+        t = c12.rand_string(rng)
+        if bst_literal_ok(t):
+            pool.append(t); extra -= 1
+    for t in pool:
+        for b in ('purify$', 'text.length$', 'width$', 'add.period$', 'num.names$', 'empty$'):
+            yield ('string_builtins', 1, [straight([Sx(t), Id(b)]), [], ''])
+        for m in ('l', 'u', 't', 'T'):
+            yield ('string_builtins', 1, [straight([Sx(t), Sx(m), Id('change.case$')]), [], ''])
+        for k in (-1, 0, 1, 2, 3, 7):
+            yield ('string_builtins', 1, [straight([Sx(t), I(k), Id('text.prefix$')]), [], ''])
+        for a, b in ((1, 2), (2, 3), (-1, 2), (-3, 2), (0, 1)):
+            yield ('string_builtins', 1, [straight([Sx(t), I(a), I(b), Id('substring$')]), [], ''])
 
 # ----------------------------------------------------------------------------------------
 # structured random programs
@@ -550,13 +575,15 @@ def gen_all(tier, rng):
         yield c
     for c in gen_substring(tier, rng):
         yield c
-    for i in range(1500 if tier == 'quick' else 10000):
+    for c in gen_string_builtins(tier, rng):
+        yield c
+    for i in range(1200 if tier == 'quick' else 10000):
         cmds, cites, bib = gen_program(rng, loops=True)
         yield ('random', 1, [cmds, cites, bib])
-    for i in range(1500 if tier == 'quick' else 10000):
+    for i in range(1200 if tier == 'quick' else 10000):
         yield ('random_exec', 1, list(gen_exec_program(rng)))
     for i in range(600 if tier == 'quick' else 6000):
         yield ('order_probe', 1, list(order_probe(rng)))
-    for i in range(1500 if tier == 'quick' else 10000):
+    for i in range(1200 if tier == 'quick' else 10000):
         cmds, cites, bib = gen_program(rng, loops=False)
         yield ('malformed', 1, [mutate(rng, cmds), cites, bib])
